@@ -21,6 +21,20 @@ var inflAssumptions = []string{
 }
 
 var props = map[string]*propDef{
+	"C05": {
+		level: "exploration", engine: "gensim",
+		rule:    "each simulation forks one world: variants run a seeded selection of packages together (two orders, and through All) and every package alone, with stateful scripted generators (helper-emitted flag, per-instance counters; with and without New) or the real runtimedoc/deepcopy/defaulter generators, under seeded map orders; per-package outputs are compared byte for byte and generator instances are traced; distinct = distinct (package count, selection size, real/scripted, generator names, go version)",
+		sims:    map[string]int{"quick": 60, "thorough": 6000},
+		budget:  map[string]time.Duration{"quick": 40 * time.Second, "thorough": 15 * time.Minute},
+		explore: func(c *sim.CheckCtx) { c.Explore("c05", sim.SimC05) },
+	},
+	"C13": {
+		level: "exploration", engine: "gensim",
+		rule:    "each simulation draws a module (local types and type parameters shadowing package-level names, generic receivers, grouped declarations, diamond imports, optionally with generated files from an earlier run) and loads it with gengo's loader under asc/desc/shuffled orders of types.Info.Defs, packages.Package.Imports and Universe.pkgs; every accessor of every module package is compared with go/types and go/ast inside the worker; distinct = distinct (package count, shadowing kinds, generics, entrypoint count, go version)",
+		sims:    map[string]int{"quick": 150, "thorough": 15000},
+		budget:  map[string]time.Duration{"quick": 35 * time.Second, "thorough": 15 * time.Minute},
+		explore: func(c *sim.CheckCtx) { c.Explore("c13", sim.SimC13) },
+	},
 	"C01": {
 		level: "fault_enumeration", engine: "gensim",
 		rule:    "each simulation draws a module and scripted generators (declaration pool with comments, odd whitespace, std and in-module references, new named types), runs it fault-free (F1-F6 on every written file: go/parser, header comment, package name, token-for-token comparison with the rendered declarations, gofmt and gofumpt fixed points) and then re-runs it once per enumerated I/O failure point of the recorded trace (every write-open of every output file and of gengo.sum with 3-6 errnos, first/last/middle/random writes with ENOSPC/EIO/EDQUOT and a short count, every remove); distinct = distinct (world, failure point); non-trivial = the fault fired",
